@@ -430,7 +430,8 @@ class CFG:
                 return
             for lab, t in node.succ:
                 k = (nid, lab, t)
-                if visits.get(k, 0) >= max_edge_visits:
+                # the single edge out of a while-loop head is taken once on entry and once per iteration
+                if visits.get(k, 0) >= max_edge_visits + (1 if node.kind == 'join' else 0):
                     continue
                 visits[k] = visits.get(k, 0) + 1
                 steps.append((nid, lab))
